@@ -586,6 +586,26 @@ def evalMem (S : Schema) (q : Query) (db : DB) : Option (List Nat) :=
       if rs.any (fun p => p.2.isNone) then none
       else some ((rs.filter fun p => p.2 == some true).map (·.1))
 
+/-- number of solutions in which root `r` is selected: EQL has one solution per satisfying assignment of the
+variables (a join between two variables yields the selected entity once per matching PAIR); `none` = raises.
+Exact for and_-only conditions in which every non-selected variable occurs (the engine binds variables lazily and
+`or_` between different variable sets re-evaluates its right side: multiplicities under `or_` are not modelled). -/
+def memCount (S : Schema) (db : DB) (q : Query) (e : Expr) (r : Nat) : Option Nat :=
+  let rs := (assignments S db q.vars.tail).map fun a => evalCond db (r :: a) e
+  if rs.contains none then none else some (rs.count (some true))
+
+/-- the solutions with their multiplicity (ascending; entity `r` repeated once per solution) -/
+def evalMemMulti (S : Schema) (q : Query) (db : DB) : Option (List Nat) :=
+  match q.vars[0]? with
+  | none => none
+  | some sel =>
+    match q.cond with
+    | none => some (rootsOf S db sel)
+    | some e =>
+      let rs := (rootsOf S db sel).map fun r => (r, memCount S db q e r)
+      if rs.any (fun p => p.2.isNone) then none
+      else some (rs.flatMap fun p => List.replicate (p.2.getD 0) p.1)
+
 /-! ## Observations (what the property compares) -/
 
 /-- ascending duplicate-free insertion -/
